@@ -275,19 +275,25 @@ theorem change_eq_accept (hsnap : SnapIdem F) (dt : DType F) (hwf : dt.WF) (j : 
 /-- the full clause for a `change` request -/
 def change_ok_statement : Prop :=
   ∀ (F : Type) [FloatOps F] [LawfulFloatOps F] (dt : DType F), dt.WF → ∀ (j : JVal F) (held : PVal F), Shaped dt held →
-    ∀ r, changeValue dt j held = .ok r → ChangeOK dt j held (.ok r)
+    ∀ r, changeValue dt j held = .ok r → ChangeOK dt j (some held) (.ok r)
 
 /-- proved under `SnapIdem F` (needed only for "denotes the value offered": without it the stored value is known
 to denote the value accepted by the first validation, not the offer itself); `change_sound` and `change_total`
 need no hypothesis -/
 theorem change_ok_partial (hsnap : SnapIdem F) (dt : DType F) (hwf : dt.WF) (j : JVal F) (held : PVal F)
-    (hheld : Shaped dt held) (r : PVal F) (h : changeValue dt j held = .ok r) : ChangeOK dt j held (.ok r) := by
+    (hheld : Shaped dt held) (r : PVal F) (h : changeValue dt j held = .ok r) : ChangeOK dt j (some held) (.ok r) := by
   refine ⟨change_sound dt hwf j held r h, ?_⟩
   rw [change_eq_accept hsnap dt hwf j held hheld] at h
   exact accept_denotes dt hwf j (some held) (fun p hp => by injection hp with hp; rw [← hp]; exact hheld) r h
 
-/-- the monitor of the `change` clause is sound: an empty verdict means the clause holds for that outcome -/
-theorem judgeChange_sound (dt : DType F) (j : JVal F) (held : PVal F) (hint : Option (PVal F)) (out : Outcome F)
+/-- a `do` request: the argument handed to the command function (`Command.do`, params.py:533-538: import, validate
+without `previous`) lies in the declared value set of the argument type and denotes the value offered - no hypothesis -/
+theorem command_argument_ok (dt : DType F) (hwf : dt.WF) (j : JVal F) (r : PVal F)
+    (h : acceptWire dt j none = .ok r) : ChangeOK dt j none (.ok r) :=
+  ⟨accept_sound dt hwf j none (fun p hp => by cases hp) r h, accept_denotes dt hwf j none (fun p hp => by cases hp) r h⟩
+
+/-- the monitor of the request clause is sound: an empty verdict means the clause holds for that outcome -/
+theorem judgeChange_sound (dt : DType F) (j : JVal F) (held : Option (PVal F)) (hint : Option (PVal F)) (out : Outcome F)
     (h : judgeChange dt j held hint out = []) : ChangeOK dt j held out := by
   cases out with
   | bad => trivial
@@ -304,9 +310,9 @@ theorem judgeChange_sound (dt : DType F) (j : JVal F) (held : PVal F) (hint : Op
     | none => simp at h2
     | some v =>
       simp only at h2
-      by_cases hb : (wireDenotesB dt j v && denotesB dt (some held) v r) = true
+      by_cases hb : (wireDenotesB dt j v && denotesB dt held v r) = true
       · simp only [Bool.and_eq_true] at hb
-        exact ⟨v, (wireDenotesB_iff dt j v).1 hb.1, (denotesB_iff dt (some held) v r).1 hb.2⟩
+        exact ⟨v, (wireDenotesB_iff dt j v).1 hb.1, (denotesB_iff dt held v r).1 hb.2⟩
       · simp [hb] at h2
 
 /-! ## non-vacuity: the exact carrier `Rat` is lawful, and a nested tree over it -/
@@ -400,7 +406,7 @@ example : ∀ v prev r, (∀ p, prev = some p → Shaped (.scaled (1/10 : Rat) (
 /-- a `change` request on the example (hypotheses of `change_sound`, `change_ok_partial`, `change_eq_accept` met):
 the node stores the merged struct; the monitor accepts that outcome with the imported value as witness, and flags
 a stored value outside the limits (`b = 50`) -/
-example : ∃ r, changeValue exTree exWire exPrev = .ok r ∧ ChangeOK exTree exWire exPrev (.ok r) ∧
+example : ∃ r, changeValue exTree exWire exPrev = .ok r ∧ ChangeOK exTree exWire (some exPrev) (.ok r) ∧
     PVal.same r exResult = true := by
   have hb : (match changeValue exTree exWire exPrev with
       | .ok r => PVal.same r exResult
@@ -412,11 +418,22 @@ example : ∃ r, changeValue exTree exWire exPrev = .ok r ∧ ChangeOK exTree ex
     exact ⟨r, rfl, change_ok_partial rat_snapIdem exTree exTree_wf exWire exPrev (shaped_of_inSet _ _ exPrev_inSet) r h, hb⟩
 
 example : (match importValue exTree exWire with
-    | .ok v => (judgeChange exTree exWire exPrev (some v) (.ok exResult)).isEmpty &&
-        (judgeChange exTree exWire exPrev (some v) (.ok exHeld)).contains "inset:change" &&
-        (judgeChange exTree exWire exPrev none (.ok exResult)).contains "denotes:change"
+    | .ok v => (judgeChange exTree exWire (some exPrev) (some v) (.ok exResult)).isEmpty &&
+        (judgeChange exTree exWire (some exPrev) (some v) (.ok exHeld)).contains "inset:change" &&
+        (judgeChange exTree exWire (some exPrev) none (.ok exResult)).contains "denotes:change"
     | _ => false) = true := by
   decide +kernel
+
+/-- `command_argument_ok` on the example: the complete struct offered as the argument of a command -/
+example : ∃ r, acceptWire exTree (.obj [("a", .arr [.int 3]), ("b", .int 1), ("c", .str "off")]) none = .ok r ∧
+    ChangeOK exTree (.obj [("a", .arr [.int 3]), ("b", .int 1), ("c", .str "off")]) none (.ok r) := by
+  cases h : acceptWire exTree (.obj [("a", .arr [.int 3]), ("b", .int 1), ("c", .str "off")]) none with
+  | error e =>
+    have hb : (match acceptWire exTree (.obj [("a", .arr [.int 3]), ("b", .int 1), ("c", .str "off")]) none with
+      | .ok _ => true
+      | _ => false) = true := by decide +kernel
+    rw [h] at hb; cases hb
+  | ok r => exact ⟨r, rfl, command_argument_ok exTree exTree_wf _ r h⟩
 
 /-- a rejected request: a JSON string offered to the scaled elements is a bad-value error, not a number -/
 example : (match acceptWire exTree (.obj [("a", .arr [.str "5"]), ("c", .int 1)]) none with
